@@ -2,6 +2,7 @@ package world
 
 import (
 	"fmt"
+	"regexp"
 	"sort"
 	"strconv"
 	"strings"
@@ -564,6 +565,9 @@ func (w *W) opCreate() string {
 	rep := w.R.T.Choose(RepCount, "rep")
 	FitRep(tree, rep)
 	opts, src := w.withMeta(w.Opts)
+	if rep == RepConfig {
+		src = "" // an existing Config keeps the metadata its values were created with
+	}
 	setSrc(tree, src)
 	in := Render(tree, rep, w.Opts)
 	var c *ucfg.Config
@@ -1193,7 +1197,13 @@ func (w *W) opRead() string {
 	}
 	n := 1 + t.Choose(3, "n-reads")
 	for i := 0; i < n; i++ {
-		switch t.Weighted([]int{5, 2, 1, 1, 1}, "read-kind") {
+		wm := 0
+		if w.F.Prop == "C14" {
+			wm = 6
+		}
+		switch t.Weighted([]int{5, 2, 1, 1, 1, wm}, "read-kind") {
+		case 5:
+			w.readMismatch(h)
 		case 0:
 			w.readAddr(h)
 		case 1:
@@ -1372,6 +1382,58 @@ func (w *W) readKind(h *Handle) {
 	w.R.MustComplete("CountField", func() { n, err = h.C.CountField("") })
 	if err != nil || n != len(h.M.D)+len(h.M.A) {
 		w.fail("read", "CountField", nil, "CountField(\"\") = %d, %v; the reference tree has %d entries", n, err, len(h.M.D)+len(h.M.A))
+	}
+}
+
+// readMismatch reads a primitive setting with a getter of the wrong kind: the
+// conversion must fail with a typed error that names the full path of exactly
+// that setting (C14) - which depends on the leaf's positional metadata having
+// survived the history so far.
+func (w *W) readMismatch(h *Handle) {
+	var leaves [][]model.Seg
+	h.M.Walk(func(x *model.Node, s []model.Seg) {
+		if x.K != model.KSub && len(s) > 0 && len(s) <= 3 {
+			if _, st := h.M.Lookup(s); st == model.Found {
+				leaves = append(leaves, s)
+			}
+		}
+	})
+	if len(leaves) == 0 || hasMixed(h.M.Root()) {
+		return
+	}
+	segs := leaves[w.R.T.Choose(len(leaves), "mismatch-leaf")]
+	a, ok := w.spell(segs)
+	if !ok {
+		return
+	}
+	n, _ := h.M.Lookup(segs)
+	var err error
+	op := "Int"
+	switch n.K {
+	case model.KBool, model.KStr, model.KNil:
+		w.R.MustComplete(op, func() { _, err = h.C.Int(a.Name, a.Idx, w.Opts...) })
+	default:
+		op = "Bool"
+		w.R.MustComplete(op, func() { _, err = h.C.Bool(a.Name, a.Idx, w.Opts...) })
+	}
+	w.R.Fault("getter of the wrong kind on a primitive setting")
+	want := n.Path(".")
+	w.R.Tracef("h%d.%s%s on a %s setting = %v (path %s)", h.ID, op, a, n.K, err, want)
+	if err == nil {
+		if n.K == model.KStr {
+			return // (a string that happens to parse)
+		}
+		w.fail("error-names", op, nil, "%s%s on a %s setting succeeded", op, a, n.K)
+		return
+	}
+	w.checkErrTyped(err, op)
+	msg := err.Error()
+	tok := regexp.MustCompile(`(^|[^A-Za-z0-9_.])` + regexp.QuoteMeta(want) + `($|[^A-Za-z0-9_.])`)
+	if !tok.MatchString(msg) {
+		w.fail("error-names", op, map[string]string{"want": want, "msg": msg}, "%s%s failed as it must, but the error does not name the setting's path %q: %s", op, a, want, msg)
+	}
+	if n.Src != "" && !strings.Contains(msg, n.Src) {
+		w.fail("error-names", op, map[string]string{"want": n.Src, "msg": msg}, "%s%s failed as it must, but the error does not mention the source %q the setting was loaded with: %s", op, a, n.Src, msg)
 	}
 }
 
